@@ -27,10 +27,12 @@ STO_FEATS = dict(sto_eff=1, sto_costs=1, sto_inflow=1, sto_levels=1, sto_two_nod
 
 def price_words(T, tier):
     allw = [list(w) for w in itertools.product([1.0, 6.0], repeat=T)]
+    # three price levels: charging early and holding is strictly better than charging late
+    three = [[6.0, 1.0, 3.0, 6.0, 1.0][:T], [1.0, 3.0, 6.0, 1.0, 6.0][:T]]
     if tier == "thorough":
-        return allw
+        return allw + three
     keep = [w for i, w in enumerate(allw) if i % 5 == 1][:7]
-    keep += [[6.0, 1.0, 1.0, 6.0, 1.0], [1.0, 1.0, 6.0, 1.0, 6.0]]   # charge late, hold over two steps, sell at the end
+    keep += [[6.0, 1.0, 1.0, 6.0, 1.0], [1.0, 1.0, 6.0, 1.0, 6.0]] + three
     return keep
 
 
